@@ -54,7 +54,9 @@ CONSTANTS
     RecheckUnderLock,   \* BOOLEAN
     GuardedConn,        \* BOOLEAN
     PerCycleWG,         \* BOOLEAN
-    SubscribeMayFail    \* BOOLEAN: explore the path on which Serve cannot subscribe and shuts itself down
+    SubscribeMayFail,   \* BOOLEAN: explore the path on which Serve cannot subscribe and shuts itself down
+    StartMayFail,       \* BOOLEAN: explore Serve/ListenAndServe calls that fail before anything is started
+    ResetOnFailedStart  \* BOOLEAN: such a call puts the state back to stopped (the repaired design)
 
 \* Script[p]: the groups producer p submits to, in program order (defined by the MC module)
 CONSTANT Script
@@ -284,6 +286,12 @@ SvInit == /\ svpc = "init" /\ svpc' = "started"
           \* WaitGroup.Add on a WaitGroup that an overtaken Serve call is still waiting on may panic
           /\ panicked' \in (IF ~PerCycleWG /\ old > 0 THEN {panicked, TRUE} ELSE {panicked})
           /\ UNCHANGED <<state, wkq, nw, ppc, pk, apc, sdpc, closes, cycle, old, strt, done, refused, lost, accepted, lateStart>>
+\* Serve / ListenAndServe gives up right after its CAS: no connection (ListenAndServe), or a listener on a
+\* pattern without handler (ValidateListeners).  Nothing was allocated; the call returns its error.
+SvEarlyFail == /\ StartMayFail /\ svpc = "init" /\ svpc' = "idle"
+               /\ state' = IF ResetOnFailedStart THEN "stopped" ELSE state
+               /\ UNCHANGED <<wq, rwork, wkq, nw, wpc, cur, idx, wg, ppc, pk, apc, sdpc, nc, closes, cycle, old,
+                              subm, strt, done, refused, lost, accepted, panicked, lateStart>>
 SvStarted0 == /\ svpc = "started" /\ svpc' = "subscribing" /\ state' = "started"
              /\ UNCHANGED <<wq, rwork, wkq, nw, wpc, cur, idx, wg, ppc, pk, apc, sdpc, nc, closes, cycle,
                             subm, strt, done, refused, lost, accepted, panicked, lateStart>>
@@ -332,7 +340,7 @@ Next ==
     \/ \E p \in Producers : RwCheck(p) \/ RwEnqueue(p) \/ RwSignal(p)
     \/ \E a \in ApiCallers : ApiCheck(a) \/ ApiUse(a)
     \/ SdCas \/ ClNil \/ ClBroadcast \/ ClConnClose \/ ClCloseInCh \/ SdWait \/ SdClear \/ SdStopped
-    \/ SvCas \/ SvInit \/ SvStarted \/ SvSubscribed \/ SvSubFail \/ SvListenEnd \/ SvReturn \/ OldServeReturn
+    \/ SvCas \/ SvInit \/ SvStarted \/ SvSubscribed \/ SvSubFail \/ SvListenEnd \/ SvReturn \/ OldServeReturn \/ SvEarlyFail
 
 \* everything that can happen has happened (used to tell a hang from termination)
 Finished ==
@@ -376,6 +384,9 @@ AfterShutdown ==
         /\ wg = 0
         /\ closes = cycle + old + (IF svpc = "returned" THEN 0 ELSE 1)
 NoLateStart == ~lateStart
+\* the state is "starting" only while a Serve call is between its CAS and the moment it declares the service
+\* started: a call that gave up does not leave a service that can neither be served nor shut down
+NotStuckStarting == state = "starting" => svpc \in {"init", "started"}
 \* a submission is either accepted or refused, never both, never silently vanished
 Accounted ==
     \A p \in Producers : \A k \in 1..(pk[p] - 1) :
